@@ -16,7 +16,7 @@ RULE = ('case = (file length from {0,1,2,3,...} and around multiples of the stre
         'default of _file_iter_range (or the real 1 MiB); modification time with and without a sub-second part; Range header: canonical RFC 7233 '
         'spellings "bytes=a-b", "a-", "-n" with positions at 0, 1, len-2..len+1, 2*len, 10^12, leading zeros, multi-range lists (first range '
         'decides), and near misses: spaces, signs, underscores, other units, upper-case unit, reversed, empty parts, junk; If-Modified-Since before '
-        '/ equal / after the mtime second in RFC 1123, RFC 850 and asctime form, with "; length=" suffix, or junk; process time zone UTC or a fixed offset (-12 .. +9:30 h); GET and HEAD are both served for '
+        '/ equal / after the mtime second in RFC 1123, RFC 850 and asctime form and RFC 1123 with a numeric zone (+0000, +0200, -0500, +0530), each with and without a legacy "; length=N" parameter, or junk; process time zone UTC or a fixed offset (-12 .. +9:30 h); GET and HEAD are both served for '
         'every case). Oracle (own RFC 7233 model): no Range -> 200, whole file, Content-Length = true length; canonical first range satisfiable -> '
         '206 whose Content-Range, Content-Length and bytes all equal the clipped slice; canonical unsatisfiable -> 416; any other Range text -> 416, '
         'or 206 whose three descriptions agree with each other and lie inside the file; no chunk larger than the buffer; If-Modified-Since >= mtime '
@@ -57,18 +57,30 @@ def the_file(n, mtime):
 
 
 def fmt_date(epoch, style):
-    t = email.utils.formatdate(epoch, usegmt=True)               # RFC 1123
-    if style == 'rfc1123':
-        return t
+    """style = base form, optionally '+' a legacy parameter suffix: rfc1123 | rfc850 | asctime | z+0200 (RFC 1123 with a numeric zone) | length (= rfc1123+length)"""
     import time
-    tm = time.gmtime(epoch)
-    if style == 'rfc850':
-        return time.strftime('%A, %d-%b-%y %H:%M:%S GMT', tm)
-    if style == 'asctime':
-        return time.strftime('%a %b ', tm) + ('%2d' % tm.tm_mday) + time.strftime(' %H:%M:%S %Y', tm)
     if style == 'length':
-        return t + '; length=1234'
-    raise AssertionError(style)
+        style = 'rfc1123+length'
+    base, _, suffix = style.partition('+') if not style.startswith('z') else (style.split('|')[0], '', style.partition('|')[2])
+    if base == 'rfc1123':
+        t = email.utils.formatdate(epoch, usegmt=True)
+    elif base == 'rfc850':
+        t = time.strftime('%A, %d-%b-%y %H:%M:%S GMT', time.gmtime(epoch))
+    elif base == 'asctime':
+        tm = time.gmtime(epoch)
+        t = time.strftime('%a %b ', tm) + ('%2d' % tm.tm_mday) + time.strftime(' %H:%M:%S %Y', tm)
+    elif base.startswith('z'):
+        # the same instant written in local time of a numeric zone, e.g. z+0200
+        sign = -1 if base[1] == '-' else 1
+        off = sign * (int(base[2:4]) * 3600 + int(base[4:6]) * 60)
+        t = time.strftime('%a, %d %b %Y %H:%M:%S ', time.gmtime(epoch + off)) + base[1:]
+    else:
+        raise AssertionError(style)
+    return t + {'': '', 'length': '; length=1234', 'length0': ';length=0', 'param': ' ; x=y'}[suffix]
+
+
+STYLES = ['rfc1123', 'rfc850', 'asctime', 'rfc1123+length', 'rfc850+length', 'asctime+length', 'rfc1123+length0', 'rfc850+length0', 'asctime+param',
+          'z+0000', 'z+0200', 'z-0500', 'z+0530', 'z+0200|length', 'z-0500|length0', 'z+0000|length']
 
 
 # ------------------------------------------------------------------ RFC 7233 model
@@ -217,7 +229,7 @@ def case_st(draw):
             case['ims'] = {'kind': 'junk', 'text': draw(st.sampled_from(['yesterday', '0', 'Mon, 99 Foo 2001 00:00:00 GMT', ';', '1000000000', '-1']))}
         else:
             ep = max(0, int(mtime) + {'before': -draw(st.integers(2, 10**6)), 'before1': -1, 'equal': 0, 'after1': 1, 'after': draw(st.integers(2, 10**6))}[kind])
-            style = draw(st.sampled_from(['rfc1123', 'rfc1123', 'rfc850', 'asctime', 'length']))
+            style = draw(st.sampled_from(['rfc1123', 'rfc1123'] + STYLES))
             case['ims'] = {'kind': kind, 'epoch': ep, 'text': fmt_date(ep, style), 'style': style}
     return case
 
@@ -291,8 +303,8 @@ def run(ctx):
                     for buf in (1, 4):
                         ctx.guarded(check_case, {'n': n, 'buf': buf, 'mtime': T0 + 5, 'range': 'bytes=' + sp})
             for frac in (0, 0.5):
-                for d in (-2, -1, 0, 1, 2):
-                    for style in ('rfc1123', 'rfc850', 'asctime', 'length'):
+                for d in (-7200, -2, -1, 0, 1, 2, 7200):
+                    for style in STYLES:
                         ep = T0 + 77 + d
                         ctx.guarded(check_case, {'n': 5, 'buf': 8, 'mtime': T0 + 77 + frac,
                                                  'ims': {'kind': 'grid', 'epoch': ep, 'text': fmt_date(ep, style), 'style': style}})
